@@ -380,6 +380,9 @@ func ruleC13LiveFilter(c *Ctx) {
 			if isRaw && !strings.Contains(lower, "select") {
 				continue // update/delete statements are not lookups
 			}
+			if t := strings.TrimSpace(lower); isRaw && (strings.HasPrefix(t, "delete") || strings.HasPrefix(t, "update")) {
+				continue // a sub-select that picks the rows a statement changes hands no row to a caller
+			}
 			if isHeaders {
 				// models.Headers().DeleteAll is not a select
 				isDelete := false
